@@ -1460,3 +1460,141 @@ func init() {
 		return runFatalCase(in), nil
 	}})
 }
+
+// ---------------------------------------------------------------------------------------------------------------------
+// domain watcher-unsched: a pod that the scheduler cannot place.  Inside the schedule window (status.ScheduleWindow, 15 s, a
+// constant of the library) the library computes InProgress, after it Failed — WITHOUT any change of the object.  The reporter
+// therefore schedules a delayed re-read from the cluster (taskManager, newStatusCheckTaskFunc, readStatusFromCluster,
+// DynamicClusterReader.Get) so that "the last event for each object reflects its final cluster state" still holds; the task
+// is cancelled when the object changes or disappears first.  Real time is unavoidable here: every case takes ~16 s, they run
+// concurrently.
+
+type unschedIn struct {
+	Scope string `json:"scope"` // "root" | "ns"
+	Then  string `json:"then"`  // "nothing" | "scheduled" (the pod gets placed after 1 s) | "deleted" (after 1 s)
+}
+
+type unschedOut struct {
+	Panic   bool     `json:"panic"`
+	Closed  bool     `json:"closed"`
+	Errors  int      `json:"errors"`
+	Seq     []string `json:"seq"`
+	Final   string   `json:"final"`   // status the library computes for the final cluster state, at the end
+	Foreign int      `json:"foreign"` // events for other objects
+}
+
+func unschedPod(scheduled bool) *unstructured.Unstructured {
+	u := &unstructured.Unstructured{Object: map[string]any{}}
+	u.SetGroupVersionKind(kPod.gvk)
+	u.SetName("a")
+	u.SetNamespace("ns1")
+	u.SetGeneration(1)
+	u.SetCreationTimestamp(metav1.NewTime(time.Now()))
+	_ = unstructured.SetNestedField(u.Object, []any{map[string]any{"name": "c", "image": "i"}}, "spec", "containers")
+	if scheduled {
+		_ = unstructured.SetNestedField(u.Object, "Running", "status", "phase")
+		_ = unstructured.SetNestedField(u.Object, []any{
+			map[string]any{"type": "PodScheduled", "status": "True"},
+			map[string]any{"type": "Ready", "status": "True"}}, "status", "conditions")
+	} else {
+		_ = unstructured.SetNestedField(u.Object, "Pending", "status", "phase")
+		_ = unstructured.SetNestedField(u.Object, []any{
+			map[string]any{"type": "PodScheduled", "status": "False", "reason": "Unschedulable"}}, "status", "conditions")
+	}
+	return u
+}
+
+func runUnschedCase(in unschedIn) (out unschedOut) {
+	out.Seq = []string{}
+	defer func() {
+		if r := recover(); r != nil {
+			out.Panic = true
+		}
+	}()
+	cl := newCluster([]kindInfo{kPod, kCM, kSvc, kDep, kRS, kNS})
+	tracker := cl.client.Tracker()
+	pod := unschedPod(false)
+	_ = tracker.Create(kPod.gvr(), pod, "ns1")
+	id := objSpec{kPod, "ns1", "a"}.id()
+	strat := watcher.RESTScopeNamespace
+	if in.Scope == "root" {
+		strat = watcher.RESTScopeRoot
+	}
+	ctx, cancel := context.WithCancel(context.Background())
+	defer cancel()
+	w := watcher.NewDefaultStatusWatcher(cl.client, cl.mapper)
+	ch := w.Watch(ctx, object.ObjMetadataSet{id}, watcher.Options{RESTScopeStrategy: strat})
+	var mu sync.Mutex
+	done := make(chan struct{})
+	go func() {
+		defer close(done)
+		for e := range ch {
+			mu.Lock()
+			switch e.Type {
+			case event.ErrorEvent:
+				out.Errors++
+			case event.ResourceUpdateEvent:
+				if e.Resource != nil && e.Resource.Identifier == id {
+					out.Seq = append(out.Seq, e.Resource.Status.String())
+				} else {
+					out.Foreign++
+				}
+			}
+			mu.Unlock()
+		}
+	}()
+	time.Sleep(time.Second)
+	switch in.Then {
+	case "scheduled":
+		cl.mutate(func() { _ = tracker.Update(kPod.gvr(), unschedPod(true), "ns1") })
+	case "deleted":
+		cl.mutate(func() { _ = tracker.Delete(kPod.gvr(), "ns1", "a") })
+	}
+	// past the schedule window (counted from the first report), with a margin
+	time.Sleep(status.ScheduleWindow + 1500*time.Millisecond - time.Second)
+	if obj, err := tracker.Get(kPod.gvr(), "ns1", "a"); err == nil {
+		if u, ok := obj.(*unstructured.Unstructured); ok {
+			out.Final = libStatus(u)
+		}
+	} else {
+		out.Final = "NotFound"
+	}
+	cancel()
+	select {
+	case <-done:
+		out.Closed = true
+	case <-time.After(6 * time.Second):
+	}
+	mu.Lock()
+	defer mu.Unlock()
+	return out
+}
+
+func genUnsched(out *proto.Out, _ *proto.Rng, _ string) {
+	var ins []unschedIn
+	for _, scope := range []string{"root", "ns"} {
+		for _, then := range []string{"nothing", "scheduled", "deleted"} {
+			ins = append(ins, unschedIn{Scope: scope, Then: then})
+		}
+	}
+	res := make([]unschedOut, len(ins))
+	var wg sync.WaitGroup
+	for i := range ins {
+		wg.Add(1)
+		go func(i int) { defer wg.Done(); res[i] = runUnschedCase(ins[i]) }(i)
+	}
+	wg.Wait()
+	for i := range ins {
+		out.Emit("watcher-unsched", ins[i], res[i])
+	}
+}
+
+func init() {
+	register("watcher-unsched", domain{gen: genUnsched, run: func(raw json.RawMessage) (any, error) {
+		var in unschedIn
+		if err := json.Unmarshal(raw, &in); err != nil {
+			return nil, err
+		}
+		return runUnschedCase(in), nil
+	}})
+}
